@@ -61,7 +61,12 @@ func checkC05(c C05Case, env *Env) *Violation {
 			if o.Name.Off == o.Name.End { // synthetic self
 				continue
 			}
-			if dcName(o.Name.Text) {
+			if gate("c05-same-name-init") && o.InAssignOfSameName {
+				// known finding C05-F1: a read inside a statement that assigns the same name
+				excludedIn(env)
+				continue
+			}
+			if dcOcc(o) {
 				env.Stats.mu.Lock()
 				env.Stats.DontCare++
 				env.Stats.mu.Unlock()
